@@ -52,6 +52,13 @@ func genFid(t *rapid.T) FidCase {
 		} else {
 			s := world.GenSpec(t, fmt.Sprintf("c%d", i))
 			c.Items = append(c.Items, FidItem{Spec: &s})
+			if s.Cross && rapid.Bool().Draw(t, "twin") {
+				// another certificate from the same issuing CA whose path continues to the other root
+				tw := s
+				tw.ID = s.ID ^ 0x5a5a5a
+				tw.CrossAlt = !s.CrossAlt
+				c.Items = append(c.Items, FidItem{Spec: &tw})
+			}
 		}
 	}
 	c.BackendMax = rapid.IntRange(0, 3).Draw(t, "bmax")
